@@ -50,7 +50,7 @@ pub fn run(rep: &mut Report, tier: &str, seed: u64) {
         &mut |rep, runner, case, r, _pi| {
             let globals = crate::props::common::supply_globals(r, &case.loaded.program);
             let cfg = RunCfg { lazy: true, globals: globals.clone(), outer_globals: vec![], debug: None, cancel_at: None };
-            let base = runner.check_mode(rep, case, &cfg, false, false);
+            let base = runner.check_mode(rep, case, &cfg, true, false);
             if base.class == "panic" {
                 return;
             }
@@ -97,7 +97,7 @@ pub fn run(rep: &mut Report, tier: &str, seed: u64) {
                     let c2 = Case { tsg: &text, loaded: &loaded, source: case.source, info: case.info, mi: &mi };
                     runner.table = crate::oracle::OracleTable::new();
                     runner.table.arm_sets = crate::astx::scan_arm_sets(&loaded.file);
-                    runner.check_mode(rep, &c2, &cfg, false, false);
+                    runner.check_mode(rep, &c2, &cfg, true, false);
                 }
             }
         });
